@@ -5,7 +5,8 @@
    Vocabulary (coq/C29/Rotate.v, coq/C29/Spec_C29.v): a directory [dir] maps file names to
    contents ([lookup]); [rotate name rotnum append compress force d] is FileLogger::rotate(force)
    and [initialise name rotnum purge d] the directory effect of FilePersister::initialise, both
-   with the std::vector accesses instrumented ([OOB] = index outside the vector);
+   with the std::vector accesses instrumented ([OOB] = index outside the vector), as repaired by
+   a64fc7d ([rotate_orig]/[initialise_orig] are the routines before the repair);
    [gen_log name compress k] is generation k of a log (k = 0: the live file [name]; k >= 1:
    name.k, with ".gz" appended when the compress flag is set), [gen_db]/[gen_idx] the store's
    data and index generations (name, name.k / name.idx, name.k.idx); cap = 1024 is
@@ -16,26 +17,25 @@ Import ListNotations.
 Local Open Scope char_scope.
 Local Open Scope N_scope.
 
-(* No out-of-bounds access for any count within the documented cap, whatever the flags and
-   the directory. *)
+(* No out-of-bounds access, whatever the configured count, the flags and the directory. *)
 Theorem c29_bounds : forall name rotnum append compress force d,
-  rotnum <= cap -> exists d', rotate name rotnum append compress force d = Ok d'.
+  exists d', rotate name rotnum append compress force d = Ok d'.
 Proof. exact c29_bounds_lemma. Qed.
 Print Assumptions c29_bounds.
 
-(* Generations shifted (all directories, all names): after a rotation that takes place (count
-   >= 1, and not append-mode unless forced) the live file is fresh and generation k holds what
-   generation k-1 held, 1 <= k <= rotnum.  A missing generation k-1 leaves a hole at k, except
-   that the oldest generation (k = rotnum) survives when nothing is shifted onto it. *)
+(* Generations shifted (all directories, all names, all counts): after a rotation that takes
+   place (count >= 1, and not append-mode unless forced) the live file is fresh and generation k
+   holds what generation k-1 held, 1 <= k <= min(count,cap).  A missing generation k-1 leaves a
+   hole at k, except that the oldest kept generation survives when nothing is shifted onto it. *)
 Theorem c29_shift : forall name rotnum append compress force d d',
-  rotnum <= cap -> 0 < rotnum -> (append = false \/ force = true) ->
+  0 < rotnum -> (append = false \/ force = true) ->
   rotate name rotnum append compress force d = Ok d' ->
   lookup d' name = Some [] /\
-  forall k, 1 <= k <= rotnum ->
+  forall k, 1 <= k <= kept rotnum ->
     lookup d' (gen_log name compress k) =
     match lookup d (gen_log name compress (k - 1)) with
     | Some c => Some c
-    | None => if k =? rotnum then lookup d (gen_log name compress k) else None
+    | None => if k =? kept rotnum then lookup d (gen_log name compress k) else None
     end.
 Proof. exact c29_shift_lemma. Qed.
 Print Assumptions c29_shift.
@@ -50,15 +50,15 @@ Proof. exact c29_cap_lemma. Qed.
 Print Assumptions c29_cap.
 
 (* Other files are never touched: every name that is not one of the generations 0..min(count,cap)
-   keeps its content (or stays absent) — for every count for which the call returns. *)
+   keeps its content (or stays absent). *)
 Theorem c29_untouched : forall name rotnum append compress force d d',
   rotate name rotnum append compress force d = Ok d' ->
   forall x, (forall k, k <= kept rotnum -> x <> gen_log name compress k) -> lookup d' x = lookup d x.
 Proof. exact c29_untouched_lemma. Qed.
 Print Assumptions c29_untouched.
 
-(* Append-mode logs are not rotated unless forced — for ANY count, even above the cap: the
-   directory is unchanged except that a missing live file is created empty. *)
+(* Append-mode logs are not rotated unless forced: the directory is unchanged except that a
+   missing live file is created empty. *)
 Theorem c29_append : forall name rotnum compress d,
   exists d', rotate name rotnum true compress false d = Ok d' /\
     (forall x, x <> name -> lookup d' x = lookup d x) /\
@@ -66,27 +66,27 @@ Theorem c29_append : forall name rotnum compress d,
 Proof. exact c29_append_lemma. Qed.
 Print Assumptions c29_append.
 
-(* The store: no out-of-bounds access within the cap ... *)
+(* The store: no out-of-bounds access for any count ... *)
 Theorem c29_store_bounds : forall name rotnum purge d,
-  rotnum <= cap -> exists d', initialise name rotnum purge d = Ok d'.
+  exists d', initialise name rotnum purge d = Ok d'.
 Proof. exact c29_store_bounds_lemma. Qed.
 Print Assumptions c29_store_bounds.
 
 (* ... purging with rotation shifts the data file and its .idx companion in step, both live
    files fresh ... *)
 Theorem c29_store_shift : forall name rotnum d d',
-  rotnum <= cap -> 0 < rotnum -> initialise name rotnum true d = Ok d' ->
+  0 < rotnum -> initialise name rotnum true d = Ok d' ->
   lookup d' name = Some [] /\ lookup d' (name ++ ["."; "i"; "d"; "x"]) = Some [] /\
-  forall k, 1 <= k <= rotnum ->
+  forall k, 1 <= k <= kept rotnum ->
     lookup d' (gen_db name k) =
       match lookup d (gen_db name (k - 1)) with
       | Some c => Some c
-      | None => if k =? rotnum then lookup d (gen_db name k) else None
+      | None => if k =? kept rotnum then lookup d (gen_db name k) else None
       end /\
     lookup d' (gen_idx name k) =
       match lookup d (gen_idx name (k - 1)) with
       | Some c => Some c
-      | None => if k =? rotnum then lookup d (gen_idx name k) else None
+      | None => if k =? kept rotnum then lookup d (gen_idx name k) else None
       end.
 Proof. exact c29_store_shift_lemma. Qed.
 Print Assumptions c29_store_shift.
@@ -100,58 +100,67 @@ Theorem c29_store_untouched : forall name rotnum purge d d',
 Proof. exact c29_store_untouched_lemma. Qed.
 Print Assumptions c29_store_untouched.
 
-(* The executable oracle (Spec_C29.c29_ok: generations shifted, at most min(count,cap) kept,
-   other files untouched, append-mode not rotated unless forced, no out-of-bounds access) holds
-   on EVERY run of the model — any directory, any sequence of constructor / rotate / write /
-   initialise operations — whose configured count is within the cap.  This is the property,
-   partial in exactly the hypothesis  c_rotnum c <= cap. *)
-Theorem c29_model_ok_partial : forall c ops d, c_rotnum c <= cap ->
+(* The property at full strength: the executable oracle (Spec_C29.c29_ok: generations shifted,
+   at most min(count,cap) kept, other files untouched, append-mode not rotated unless forced, no
+   out-of-bounds access) holds on EVERY run of the model -- any configured count, any directory,
+   any sequence of constructor / rotate / write / initialise operations. *)
+Theorem c29_model_ok : forall c ops d,
   exists tr, run c ops d = Trace tr /\ c29_ok c d ops (Trace tr) = true.
 Proof. exact model_ok. Qed.
-Print Assumptions c29_model_ok_partial.
+Print Assumptions c29_model_ok.
 
-(* Refutation above the cap: count 1025 indexes rlst[1025] of a 1025-element vector (logger)
-   and dblst[1025] (store); the oracle fails on that run. *)
-Theorem c29_oob_refuted :
-  exists rotnum d, cap < rotnum /\
-    rotate w_log rotnum false false false d = OOB /\ initialise w_db rotnum true d = OOB /\
-    c29_ok (mkcfg w_log rotnum false false) d [OpRotate false]
-           (run (mkcfg w_log rotnum false false) [OpRotate false] d) = false.
-Proof. exact c29_oob_refuted_lemma. Qed.
-Print Assumptions c29_oob_refuted.
-
-(* ... and so does EVERY count above the cap, on every directory, as soon as one operation of
-   the run really rotates (a rotate that is not append-only, or an initialise with purge). *)
-Theorem c29_oob_all : forall c ops d, cap < c_rotnum c ->
-  existsb (effective c) ops = true ->
-  run c ops d = Died /\ c29_ok c d ops (run c ops d) = false.
-Proof. exact c29_oob_all_lemma. Qed.
-Print Assumptions c29_oob_all.
+(* The routines as they were before the repair a64fc7d (loop index starting at the configured
+   count) violated the bounds clause: count 1025 indexes rlst[1025] of a 1025-element vector
+   (logger) and dblst[1025] (store), and so does every count above the cap. *)
+Theorem c29_oob_orig_refuted :
+  (exists rotnum d, rotate_orig w_log rotnum false false false d = OOB /\
+                    initialise_orig w_db rotnum true d = OOB) /\
+  (forall name rotnum append compress force d, cap < rotnum ->
+     (append = false \/ force = true) -> rotate_orig name rotnum append compress force d = OOB) /\
+  (forall name rotnum d, cap < rotnum -> initialise_orig name rotnum true d = OOB).
+Proof. exact c29_oob_orig_refuted_lemma. Qed.
+Print Assumptions c29_oob_orig_refuted.
 
 (* The property's finite range of counts, 0..1100, swept by evaluation of the instrumented
-   model (log "log" / store "db" in an empty directory): exactly 1025..1100 are out of bounds. *)
-Theorem c29_oob_sweep_log : forall r, r <= 1100 ->
-  (rotate ["l"; "o"; "g"] r false false false [] = OOB <-> 1024 < r).
-Proof. exact oob_sweep_log_lemma. Qed.
-Print Assumptions c29_oob_sweep_log.
+   model (log "log" / store "db" in an empty directory): none is out of bounds ... *)
+Theorem c29_sweep_log : forall r, r <= 1100 ->
+  rotate ["l"; "o"; "g"] r false false false [] <> OOB.
+Proof. exact sweep_log_lemma. Qed.
+Print Assumptions c29_sweep_log.
 
-Theorem c29_oob_sweep_store : forall r, r <= 1100 ->
-  (initialise ["d"; "b"] r true [] = OOB <-> 1024 < r).
-Proof. exact oob_sweep_store_lemma. Qed.
-Print Assumptions c29_oob_sweep_store.
+Theorem c29_sweep_store : forall r, r <= 1100 ->
+  initialise ["d"; "b"] r true [] <> OOB.
+Proof. exact sweep_store_lemma. Qed.
+Print Assumptions c29_sweep_store.
+
+(* ... while before the repair exactly 1025..1100 were. *)
+Theorem c29_sweep_log_orig : forall r, r <= 1100 ->
+  (rotate_orig ["l"; "o"; "g"] r false false false [] = OOB <-> 1024 < r).
+Proof. exact sweep_log_orig_lemma. Qed.
+Print Assumptions c29_sweep_log_orig.
 
 (* Non-vacuity: count 3 on {log=A, log.1=B, log.2=E, log.3=C, log.4=D, other=X} meets the
    hypotheses of c29_shift; the result is {log="", log.1=A, log.2=B, log.3=E, log.4=D, other=X}
-   (C dropped, log.4 and other untouched), and the oracle accepts the three-step run
-   constructor / write / forced rotation. *)
+   (C dropped, log.4 and other untouched); with count 1025 (kept = 1024) everything shifts by one
+   and nothing is dropped; the oracle accepts the three-step run constructor / write / forced
+   rotation. *)
 Theorem c29_nonvacuous :
-  3 <= cap /\ 0 < 3 /\
+  0 < 3 /\ kept 3 = 3 /\ kept 1025 = 1024 /\
   (forall x, In x [w_log; (w_log ++ ["."; "1"]); (w_log ++ ["."; "2"]); (w_log ++ ["."; "3"]);
                    (w_log ++ ["."; "4"]); ["o"; "t"; "h"; "e"; "r"]] ->
      match rotate w_log 3 false false false nv_dir with
      | Ok d' => lookup d' x =
          lookup [ (w_log, []); (w_log ++ ["."; "1"], ["A"]); (w_log ++ ["."; "2"], ["B"]);
                   (w_log ++ ["."; "3"], ["E"]); (w_log ++ ["."; "4"], ["D"]);
+                  (["o"; "t"; "h"; "e"; "r"], ["X"]) ] x
+     | _ => False
+     end) /\
+  (forall x, In x [w_log; (w_log ++ ["."; "1"]); (w_log ++ ["."; "2"]); (w_log ++ ["."; "3"]);
+                   (w_log ++ ["."; "4"]); (w_log ++ ["."; "5"]); ["o"; "t"; "h"; "e"; "r"]] ->
+     match rotate w_log 1025 false false false nv_dir with
+     | Ok d' => lookup d' x =
+         lookup [ (w_log, []); (w_log ++ ["."; "1"], ["A"]); (w_log ++ ["."; "2"], ["B"]);
+                  (w_log ++ ["."; "3"], ["E"]); (w_log ++ ["."; "4"], ["C"]); (w_log ++ ["."; "5"], ["D"]);
                   (["o"; "t"; "h"; "e"; "r"], ["X"]) ] x
      | _ => False
      end) /\
